@@ -220,13 +220,33 @@ def Prov.expIssuer (p : Prov) : Str :=
   | .aws => awsIssuer
   | _ => p.name
 
+/-- how an SSH public key is known to the authority (`authority.go init`, `WithSSH*Signer`, `config.SSH.Keys`) -/
+inductive KeyClass where
+  | own        -- the CA's signing key of that type: in the roots list and heading the federation list
+  | retired    -- `ssh.keys` entry with `federated: false` (a rotated-out key of this CA): roots list only
+  | federated  -- `ssh.keys` entry with `federated: true` (another CA): federation list only
+  deriving DecidableEq, Repr
+
+structure SshKey where
+  user : Bool            -- type "user" (else "host")
+  cls : KeyClass
+  deriving DecidableEq, Repr
+
 structure Config where
   hosts : List Host
   provs : List Prov
   sshCA : Bool           -- the authority has an SSH user or host signing key
   disableIat : Bool      -- AuthorityConfig.DisableIssuedAtCheck
   startTime : Int        -- Authority.startTime (truncated to the second), seconds
+  sshKeys : List SshKey := []  -- every SSH public key the authority knows, own and configured
   deriving Repr
+
+/-- `generateProvisionerConfig`: SSHPOP provisioners get `GetSSHRoots()` — the CA's own keys and the
+    retired ones, per certificate type — and **not** the federation list. -/
+def Config.sshRoot (cfg : Config) (user : Bool) (k : Nat) : Bool :=
+  match cfg.sshKeys[k]? with
+  | some key => key.user == user && key.cls != .federated
+  | none => false
 
 /-! ### the presented token, parsed -/
 
@@ -242,7 +262,7 @@ structure Cr where
                   -- key `keyStore.Get(kid)` returns; X5C / SSHPOP / Nebula: under the key of the
                   -- certificate carried in the header
   chain : Bool    -- X5C: header chain verifies to `p.rootPool` with ExtKeyUsageClientAuth;
-                  -- SSHPOP: certificate signed by a CA user (host) key for a user (host) certificate;
+                  -- SSHPOP: (not used: see `Pop.signer` and `Config.sshRoot`)
                   -- Nebula: `c.Verify(now, p.caPool)`
   digSig : Bool   -- X5C: the verified leaf has KeyUsageDigitalSignature
   admin : Bool    -- OIDC: `claims.IsAdmin(o.Admins)`
@@ -276,6 +296,8 @@ structure Pop where
   host : Bool          -- CertType == ssh.HostCert
   user : Bool          -- CertType == ssh.UserCert (neither: the host keys are tried)
   serialIsSub : Bool   -- claims.Subject == FormatUint(cert.Serial)
+  signer : Option Nat := none  -- index in `Config.sshKeys` of the key under which the certificate's
+                       -- signature verifies (crypto input, tried against every known key); none: a foreign key
   deriving DecidableEq, Repr
 
 structure Tok where
@@ -452,7 +474,8 @@ def sshpopTok (cfg : Config) (p : Prov) (c : Cr) (now : Int) (op : Op) (t : Tok)
   | none => .reject .header
   | some pc => do
     if checkValidity then certWindowTok pc now
-    need c.chain .chain
+    -- `keys` = user keys for a user certificate, host keys otherwise; some key of that list verifies it
+    need (match pc.signer with | some k => cfg.sshRoot pc.user k | none => false) .chain
     need c.sig .signature
     claimsAudSub cfg p now op t
     pure pc
@@ -536,7 +559,7 @@ def nebulaOp (cfg : Config) (p : Prov) (c : Cr) (now : Int) (op : Op) (t : Tok) 
   | .sshRenew | .sshRekey => baseReject
 
 /-! #### cloud identity provisioners (`aws.go`, `gcp.go`, `azure.go`): sign and ssh-sign only; both use
-  the **sign** audience list (`p.ctl.Audiences.Sign`); none of them tests the subject for emptiness -/
+  the **sign** audience list (`p.ctl.Audiences.Sign`); an empty subject is refused since 6a9c1d5 -/
 
 /-- `GCP.authorizeToken`: `c.sig` = some key `keyStore.Get(kid)` returns verifies the token -/
 def gcpTok (cfg : Config) (p : Prov) (c : Cr) (l : Cl) (now : Int) (t : Tok) : Out Unit := do
@@ -546,6 +569,7 @@ def gcpTok (cfg : Config) (p : Prov) (c : Cr) (l : Cl) (now : Int) (t : Tok) : O
   need l.subject .cloudFilter
   need l.scope .cloudFilter
   need l.age .cloudAge
+  need (!t.sub.isEmpty) .subject          -- since 6a9c1d5
   need l.fields .cloudDocument
 
 def gcpOp (cfg : Config) (p : Prov) (c : Cr) (l : Cl) (now : Int) (op : Op) (t : Tok) : Out Unit :=
@@ -565,6 +589,7 @@ def awsTok (cfg : Config) (p : Prov) (c : Cr) (l : Cl) (now : Int) (t : Tok) : O
   need l.fields .cloudDocument
   validate p.expIssuer now t
   need (audMatch t.aud (provAuds cfg p .sign)) .audience
+  need (!t.sub.isEmpty) .subject          -- since 6a9c1d5
   need l.subject .subject
   need l.scope .cloudFilter
   need l.age .cloudAge
@@ -584,6 +609,7 @@ def azureTok (p : Prov) (c : Cr) (l : Cl) (now : Int) (t : Tok) : Out Unit := do
   need (p.oidcIssuer.isEmpty || p.oidcIssuer == t.iss) .issuer
   need (t.aud.any fun a => a.raw == p.audience) .audience
   validate [] now t
+  need (!t.sub.isEmpty) .subject          -- since 6a9c1d5
   need (t.tid == p.clientId) .tenant
   need l.fields .cloudDocument
 
@@ -718,5 +744,187 @@ def handlerPaths : List (String × List (List Ev)) :=
        [.noToken, .eff "Revoke", .ret],
        [.noToken, .ret],
        [.ret]]) ]
+
+/-! ### the functions of `authority/authorize.go` that `authorize` mirrors, and the method sets of the
+  provisioner types, as the source has them
+
+  `flows` is the statement skeleton of `Authorize`, the six `authorize<Op>`, `authorizeToken`,
+  `getProvisionerFromToken` and `generateProvisionerConfig` (provisioners.go): `call n g` a call on `a` / `p` / `tok` / `jose` (`g = returns`: its error
+  is tested by the adjacent `if err != nil { …; return }`), `cond c t e` any other `if` with its
+  condition as source text, `sw tag cases` a switch, `ret calls` a return. `declared` lists which of the
+  six `Authorize*` methods each provisioner type declares itself and whether it embeds `*base`.
+  Both are re-derived from the source (go/ast, harness stage `handlers`) on every run and compared
+  with this copy through the driver.
+-/
+inductive Guard where
+  | none | returns | other
+  deriving DecidableEq, Repr
+
+inductive Fl where
+  | call (name : String) (g : Guard)
+  | cond (c : String) (t : List Fl) (e : List Fl)
+  | sw (tag : String) (cases : List (String × List Fl))
+  | ret (calls : List String)
+  | unknown (what : String)
+
+def flows : List (String × List Fl) :=
+  [
+    ("Authorize",
+      [.sw "m := provisioner.MethodFromContext(ctx); m" [("case provisioner.SignMethod, provisioner.SignIdentityMethod", [.call "a.authorizeSign" .none, .ret []]), ("case provisioner.RevokeMethod", [.ret ["a.authorizeRevoke"]]), ("case provisioner.SSHSignMethod", [.cond "a.sshCAHostCertSignKey == nil && a.sshCAUserCertSignKey == nil" [.ret []] [], .call "a.authorizeSSHSign" .none, .ret []]), ("case provisioner.SSHRenewMethod", [.cond "a.sshCAHostCertSignKey == nil && a.sshCAUserCertSignKey == nil" [.ret []] [], .call "a.authorizeSSHRenew" .none, .ret []]), ("case provisioner.SSHRevokeMethod", [.ret ["a.authorizeSSHRevoke"]]), ("case provisioner.SSHRekeyMethod", [.cond "a.sshCAHostCertSignKey == nil && a.sshCAUserCertSignKey == nil" [.ret []] [], .call "a.authorizeSSHRekey" .none, .ret []]), ("default", [.ret []])]]),
+    ("authorizeSign",
+      [.call "a.authorizeToken" .returns, .call "p.AuthorizeSign" .returns, .ret []]),
+    ("authorizeRevoke",
+      [.call "a.authorizeToken" .returns, .call "p.AuthorizeRevoke" .returns, .ret []]),
+    ("authorizeSSHSign",
+      [.call "a.authorizeToken" .returns, .call "p.AuthorizeSSHSign" .returns, .ret []]),
+    ("authorizeSSHRenew",
+      [.call "a.authorizeToken" .returns, .call "p.AuthorizeSSHRenew" .returns, .ret []]),
+    ("authorizeSSHRekey",
+      [.call "a.authorizeToken" .returns, .call "p.AuthorizeSSHRekey" .returns, .ret []]),
+    ("authorizeSSHRevoke",
+      [.call "a.authorizeToken" .returns, .call "p.AuthorizeSSHRevoke" .returns, .ret []]),
+    ("authorizeToken",
+      [.call "a.getProvisionerFromToken" .returns, .cond "a.config.AuthorityConfig != nil && !a.config.AuthorityConfig.DisableIssuedAtCheck" [.cond "claims.IssuedAt != nil && claims.IssuedAt.Time().Before(a.startTime)" [.ret []] []] [], .cond "!SkipTokenReuseFromContext(ctx)" [.call "a.UseToken" .returns] [], .ret []]),
+    ("getProvisionerFromToken",
+      [.call "jose.ParseSigned" .returns, .call "tok.UnsafeClaimsWithoutVerification" .returns, .call "a.LoadProvisionerByToken" .returns, .sw "p.GetType()" [("case provisioner.TypeACME, provisioner.TypeSCEP", [.ret ["p.GetName"]])], .cond "_, ok := p.(provisioner.Uninitialized); ok" [.ret ["p.GetName"]] [], .ret []]),
+    ("generateProvisionerConfig",
+      [.cond "err != nil" [.ret []] [], .call "a.GetSSHRoots" .returns, .ret []]) ]
+
+def declared : List (String × List String × Bool) :=
+  [
+    ("JWK", ["AuthorizeRevoke", "AuthorizeSSHRevoke", "AuthorizeSSHSign", "AuthorizeSign"], true),
+    ("X5C", ["AuthorizeRevoke", "AuthorizeSSHSign", "AuthorizeSign"], true),
+    ("SSHPOP", ["AuthorizeSSHRekey", "AuthorizeSSHRenew", "AuthorizeSSHRevoke"], true),
+    ("OIDC", ["AuthorizeRevoke", "AuthorizeSSHRevoke", "AuthorizeSSHSign", "AuthorizeSign"], true),
+    ("K8sSA", ["AuthorizeRevoke", "AuthorizeSSHSign", "AuthorizeSign"], true),
+    ("Nebula", ["AuthorizeRevoke", "AuthorizeSSHRekey", "AuthorizeSSHRenew", "AuthorizeSSHRevoke", "AuthorizeSSHSign", "AuthorizeSign"], false),
+    ("ACME", ["AuthorizeRevoke", "AuthorizeSign"], true),
+    ("SCEP", ["AuthorizeSign"], true),
+    ("AWS", ["AuthorizeSSHSign", "AuthorizeSign"], true),
+    ("GCP", ["AuthorizeSSHSign", "AuthorizeSign"], true),
+    ("Azure", ["AuthorizeSSHSign", "AuthorizeSign"], true) ]
+
+/-- every function of package `api` that calls `Authorize` or a method / helper that signs, renews,
+    rekeys or revokes: (name, calls Authorize, those calls); re-derived from api/*.go on every run -/
+def apiSurface : List (String × Bool × List String) :=
+  [
+    ("Rekey", false, ["Rekey"]),
+    ("Renew", false, ["RenewContext"]),
+    ("Revoke", true, ["Revoke"]),
+    ("SSHRekey", true, ["RekeySSH", "renewIdentityCertificate"]),
+    ("SSHRenew", true, ["RenewSSH", "renewIdentityCertificate"]),
+    ("SSHRevoke", true, ["Revoke"]),
+    ("SSHSign", true, ["SignSSH", "SignSSHAddUser", "SignWithContext"]),
+    ("Sign", true, ["SignWithContext"]),
+    ("renewIdentityCertificate", false, ["Renew"]) ]
+
+/-- the routes `api.Route` registers: (method, pattern, handler), in source order; re-derived on every run -/
+def apiRoutes : List (String × String × String) :=
+  [
+    ("GET", "/version", "Version"),
+    ("GET", "/health", "Health"),
+    ("GET", "/root/{sha}", "Root"),
+    ("POST", "/sign", "Sign"),
+    ("POST", "/renew", "Renew"),
+    ("POST", "/rekey", "Rekey"),
+    ("POST", "/revoke", "Revoke"),
+    ("GET", "/crl", "CRL"),
+    ("GET", "/provisioners", "Provisioners"),
+    ("GET", "/provisioners/{kid}/encrypted-key", "ProvisionerKey"),
+    ("GET", "/roots", "Roots"),
+    ("GET", "/roots.pem", "RootsPEM"),
+    ("GET", "/intermediates", "Intermediates"),
+    ("GET", "/intermediates.pem", "IntermediatesPEM"),
+    ("GET", "/federation", "Federation"),
+    ("POST", "/ssh/sign", "SSHSign"),
+    ("POST", "/ssh/renew", "SSHRenew"),
+    ("POST", "/ssh/revoke", "SSHRevoke"),
+    ("POST", "/ssh/rekey", "SSHRekey"),
+    ("GET", "/ssh/roots", "SSHRoots"),
+    ("GET", "/ssh/federation", "SSHFederation"),
+    ("POST", "/ssh/config", "SSHConfig"),
+    ("POST", "/ssh/config/{type}", "SSHConfig"),
+    ("POST", "/ssh/check-host", "SSHCheckHost"),
+    ("GET", "/ssh/hosts", "SSHGetHosts"),
+    ("POST", "/ssh/bastion", "SSHBastion"),
+    ("POST", "/re-sign", "Renew"),
+    ("POST", "/sign-ssh", "SSHSign"),
+    ("GET", "/ssh/get-hosts", "SSHGetHosts") ]
+
+mutual
+partial def Fl.show : Fl → String
+  | .call n g => "C(" ++ n ++ ")" ++ (match g with | .none => "" | .returns => "!" | .other => "?")
+  | .ret [] => "R"
+  | .ret cs => "R(" ++ ",".intercalate cs ++ ")"
+  | .cond c t [] => "I[" ++ c ++ "]{" ++ Fl.showList t ++ "}"
+  | .cond c t e => "I[" ++ c ++ "]{" ++ Fl.showList t ++ "}E{" ++ Fl.showList e ++ "}"
+  | .sw tag cs => "S[" ++ tag ++ "]{" ++ ";;".intercalate (cs.map fun x => x.1 ++ ":" ++ Fl.showList x.2) ++ "}"
+  | .unknown w => "X:" ++ w
+partial def Fl.showList (l : List Fl) : String := ",".intercalate (l.map Fl.show)
+end
+
+/-! ### the provisioner collection (`authority/provisioner/collection.go`: `Store`, `Remove`, `Update`)
+
+  What `Config.provs` stands for: the provisioners the collection currently indexes. A provisioner
+  is seen through the three keys it is indexed by (`GetID`, `GetName`, `GetIDForToken`); the three
+  `sync.Map`s are functions `Str → Option CP`. `Store` = three `LoadOrStore`s, each failure undoing
+  the earlier ones (net effect: unchanged); `Remove` deletes the three entries of the provisioner
+  stored under the id; `Update` = the two "new name / new token id already taken" tests, then
+  `Remove(old)` and `Store(new)`. (`byKey` and the `sorted` list play no part in token lookups.)
+-/
+structure CP where
+  id : Str
+  name : Str
+  tok : Str
+  deriving DecidableEq, Repr
+
+abbrev CMap := Str → Option CP
+def CMap.set (m : CMap) (k : Str) (v : CP) : CMap := fun x => if x = k then some v else m x
+def CMap.del (m : CMap) (k : Str) : CMap := fun x => if x = k then none else m x
+
+structure Coll where
+  byID : CMap
+  byName : CMap
+  byTok : CMap
+
+def Coll.empty : Coll := ⟨fun _ => none, fun _ => none, fun _ => none⟩
+
+def Coll.store (c : Coll) (p : CP) : Coll × Bool :=
+  match c.byID p.id with
+  | some _ => (c, false)
+  | none =>
+    match c.byName p.name with
+    | some _ => (c, false)     -- stored under its id, then taken out again
+    | none =>
+      match c.byTok p.tok with
+      | some _ => (c, false)
+      | none => (⟨c.byID.set p.id p, c.byName.set p.name p, c.byTok.set p.tok p⟩, true)
+
+def Coll.remove (c : Coll) (id : Str) : Coll × Bool :=
+  match c.byID id with
+  | none => (c, false)
+  | some q => (⟨c.byID.del id, c.byName.del q.name, c.byTok.del q.tok⟩, true)
+
+def Coll.update (c : Coll) (nu : CP) : Coll × Bool :=
+  match c.byID nu.id with
+  | none => (c, false)
+  | some old =>
+    if old.name ≠ nu.name ∧ (c.byName nu.name).isSome then (c, false)
+    else if old.tok ≠ nu.tok ∧ (c.byTok nu.tok).isSome then (c, false)
+    else
+      let r := c.remove old.id
+      if !r.2 then r else r.1.store nu
+
+
+inductive COp where
+  | store (p : CP) | remove (id : Str) | update (p : CP)
+
+def Coll.step (c : Coll) : COp → Coll
+  | .store p => (c.store p).1
+  | .remove id => (c.remove id).1
+  | .update p => (c.update p).1
+
+def Coll.run (ops : List COp) : Coll := ops.foldl Coll.step Coll.empty
+
 
 end Verif.Token
